@@ -203,6 +203,11 @@ def run(facts, cg):
                 term = term[3] if isinstance(term[2], tuple) and term[2][0] == 'const' else term[2]
             else:
                 continue
+            # a variable assigned on several paths (`let n = match read { Err(Interrupted) => 0, other => other? }`): all it can stand for
+            from ..terms import var_alternatives
+            valts = var_alternatives(T, b, term) if any(n_[0] == 'var' for n_ in walk(term)) else []
+            if valts:
+                term = ('phi', [simplify(T.resolve_env(a_)) for a_ in valts])
             reads = [n_ for n_ in walk(term) if n_[0] == 'call' and n_[1].split('::')[-1] in READS and ('AsyncRead' in n_[1] or 'async_read' in n_[1] or 'io::Read' in n_[1])]
             if not reads:
                 continue
